@@ -150,6 +150,11 @@ def draw_expr(draw, leaves, depth=0):
         a = draw(st.sampled_from(ints))
         b = draw(st.one_of(st.sampled_from(ints).map(lambda l: ["leaf", list(l[0])]), st.integers(-3, 5).map(lambda c: ["c", c])))
         return [draw(st.sampled_from(["lt", "ge", "eq"])), ["leaf", list(a[0])], b], "bool"
+    if k == 7 and ints and draw(st.booleans()):
+        # powers with a small constant exponent: x ** 0 is the library's shared constant-one object, x ** 1 the argument itself
+        a = draw(st.sampled_from([l for l in ints if l[1] == "int"] or ints))
+        if a[1] == "int":
+            return ["pow", ["leaf", list(a[0])], draw(st.sampled_from([0, 0, 1, 2]))], "int"
     l = draw(st.sampled_from(leaves))
     return ["leaf", list(l[0])], ("int" if l[1] in ("int", "bool") else "float")
 
@@ -174,6 +179,8 @@ def eval_expr(e, args):
         return e[1]
     if t == "leaf":
         return fetch(args, e[1])
+    if t == "pow":
+        return eval_expr(e[1], args) ** e[2]
     a, b = eval_expr(e[1], args), eval_expr(e[2], args)
     if t == "add":
         return a + b
